@@ -1,7 +1,10 @@
 import os, sys
 HERE = os.path.dirname(os.path.dirname(os.path.abspath(__file__)))
+import sys as _sys; _sys.path.insert(0, os.path.join(HERE, 'lib'))
+import irb
 sys.path.insert(0, os.path.join(HERE, 'lib')); sys.path.insert(0, HERE)
 from checks import wcommon, esccommon
+import irb
 
 META = dict(
     functions=['writer.c: label_from_string, clean_string (lowercase / url_clean / plain)', 'token.c: token_trim_leading_whitespace, token_trim_trailing_whitespace', 'char.c: smart_char_type table',
@@ -21,6 +24,11 @@ def harnesses(tier):
         hs.append(esccommon.escape('c16_esc', fmt, 3 if fmt in (2, 3) and tier == 'quick' else EN, tier, u8=True))
     hs.append(dict(name='c16_char_table', src='c16/chartab.c', units=['repo:char.c'], unwind=4, timeout=300, mem_gb=4,
                    bounds='all 256 byte values (exhaustive)', desc='char.c smart_char_type: no byte >= 0x80 is classified as whitespace, line ending or punctuation by the byte-class predicates used for trimming'))
+    LXN = 2 if tier == 'quick' else 3
+    hs.append(dict(name='c16_lexer_boundaries', src='irb/lexer.c', defs=dict(N=LXN, U8=1), prepare=irb.prepare_lexer,
+                   unwind_auto=[10 * LXN, 16 * LXN, 25 * LXN, 40 * LXN], timeout=1500 if tier == 'quick' else 6000, mem_gb=10, functional=True,
+                   bounds='every NUL-terminated buffer of 1..%d bytes that is valid UTF-8, scan() called until end of input' % LXN,
+                   desc='lexer scan() (IR of the current lexer.c): no token boundary inside a multi-byte character'))
     return hs
 
 CLAIM = dict(
